@@ -57,6 +57,26 @@ def live_children():
     return out
 
 
+HANG_DUMPS = []  # texts of the thread dumps taken at suspected hangs in this process (the last few)
+
+
+def _dump_stacks(budget_s):
+    """where every thread of this process is when a case exceeds its budget: goes into the detail of a hang violation"""
+    try:
+        import sys
+        import traceback
+
+        names = {t.ident: t.name for t in threading.enumerate()}
+        parts = []
+        for ident, frame in sys._current_frames().items():
+            stack = traceback.extract_stack(frame)[-6:]
+            parts.append(f"[{names.get(ident, ident)}] " + ' <- '.join(f'{os.path.basename(f.filename)}:{f.lineno}:{f.name}' for f in reversed(stack)))
+        HANG_DUMPS.append(f'after {budget_s}s: ' + ' || '.join(parts))
+        del HANG_DUMPS[:-3]
+    except Exception:
+        pass
+
+
 def _run_once(case, budget_s):
     box = {}
 
@@ -71,6 +91,7 @@ def _run_once(case, budget_s):
     t.start()
     t.join(budget_s)
     if t.is_alive():
+        _dump_stacks(budget_s)
         return _HANG, None
     return box.get('result'), box.get('exc')
 
@@ -91,5 +112,5 @@ def run_with_watchdog(case, budget_s=60.0, what='', hang_retries=2, hang_is_viol
             raise exc
         return res
     if hang_is_violation:
-        raise Violation('hang', f'{what}: did not finish within {budget_s}s, {budget_s*2}s, {budget_s*4}s (3 attempts)', signature=signature or ['hang', what])
+        raise Violation('hang', f'{what}: did not finish within {budget_s}s, {budget_s*2}s, {budget_s*4}s (3 attempts); threads at the last expiry: {HANG_DUMPS[-1][:3000] if HANG_DUMPS else "?"}', signature=signature or ['hang', what])
     raise Inconclusive(f'{what}: hung')
